@@ -3,6 +3,7 @@ import fcntl
 import json
 import os
 import select
+import socket
 import struct
 import subprocess
 import termios
@@ -175,7 +176,11 @@ class Driver(object):
         """Returns a config id. Raises Rejected if delta refuses the option set."""
         cid = "c%d" % self.nid
         self.nid += 1
-        self.configs[cid] = (list(args), dict(env or {}))
+        # mirror DeltaEnv::init of a plain CLI run in the same directory / on the same host
+        e = {"cwd": self.cwd or os.getcwd(), "hostname": socket.gethostname(), "pager": "less"}
+        e.update(env or {})
+        e = {k: v for k, v in e.items() if v is not None}
+        self.configs[cid] = (list(args), e)
         self._ensure(cid)
         return cid
 
